@@ -158,6 +158,10 @@ func checkHierarchical(p *core.Prog, r *core.Report, ds *core.Describer, f *ssa.
 						suffixParam = prm
 					}
 				}
+			} else if cs, ok := constString(d.Args[1].Val); ok {
+				suffix = cs // a named constant as the second operand
+			} else if d.Args[1].Kind == "const" {
+				suffix = strings.Trim(d.Args[1].Name, "\"")
 			}
 		} else {
 			suffix = rest
@@ -173,6 +177,7 @@ func checkHierarchical(p *core.Prog, r *core.Report, ds *core.Describer, f *ssa.
 	var baseKeys []string
 	baseParam := false
 	nBase, nHit, nRec := 0, 0, 0
+	sawTop, sawShort := false, false
 	var lastIndex *ssa.Call
 	core.EachInstr(f, func(in ssa.Instruction) {
 		if c, ok := in.(*ssa.Call); ok && c.Call.StaticCallee() != nil && c.Call.StaticCallee().Pkg != nil && c.Call.StaticCallee().Pkg.Pkg.Path() == "strings" {
@@ -193,7 +198,7 @@ func checkHierarchical(p *core.Prog, r *core.Report, ds *core.Describer, f *ssa.
 		// recursive?
 		if c, ok := ret.Results[0].(*ssa.Call); ok && c.Call.StaticCallee() == f {
 			nRec++
-			checkRecursion(p, r, ds, f, c, path, lastIndex, construct)
+			checkRecursion(p, r, ds, f, c, path, lastIndex, construct, &sawTop, &sawShort)
 			continue
 		}
 		if d.MentionsCall(core.FnKey(f)) {
@@ -318,11 +323,11 @@ func checkHierarchical(p *core.Prog, r *core.Report, ds *core.Describer, f *ssa.
 	}
 	r.Check(nBase >= 1, "C19.1", base+"|has-base-return", p.Pos(f.Pos()), "has a top-level return", "no return for path == \"\"")
 	r.Check(nHit >= 1, "C19.3", base+"|has-hit-return", p.Pos(f.Pos()), "has a found-value return", "no return of the value found at <path>.<name>")
-	r.Check(nRec == 2, "C19.4", base+"|fallback-returns", p.Pos(f.Pos()), "two fallback returns (no more dots / shortened path)", fmt.Sprintf("%d fallback returns, expected 2 (self(\"\") and self(path[0:i]))", nRec))
+	r.Check(nRec >= 1 && sawTop && sawShort, "C19.4", base+"|fallback-returns", p.Pos(f.Pos()), "the fallback lookup is made both with \"\" (no more dots) and with the shortened path", fmt.Sprintf("%d fallback returns; expected the fallbacks self(\"\") and self(path[0:i]) (top level reached: %v, shortened path: %v)", nRec, sawTop, sawShort))
 	r.Check(lastIndex != nil, "C19.4", base+"|last-index", p.Pos(f.Pos()), "the path is shortened at strings.LastIndex(path, \".\")", "the path is not shortened at strings.LastIndex(path, \".\") (levels would be skipped)")
 }
 
-func checkRecursion(p *core.Prog, r *core.Report, ds *core.Describer, f *ssa.Function, c *ssa.Call, path *ssa.Parameter, lastIndex *ssa.Call, construct string) {
+func checkRecursion(p *core.Prog, r *core.Report, ds *core.Describer, f *ssa.Function, c *ssa.Call, path *ssa.Parameter, lastIndex *ssa.Call, construct string, sawTop, sawShort *bool) {
 	// which argument is the path
 	k := -1
 	for i, prm := range f.Params {
@@ -340,38 +345,50 @@ func checkRecursion(p *core.Prog, r *core.Report, ds *core.Describer, f *ssa.Fun
 		}
 	}
 	arg := c.Call.Args[k]
-	isCall := func(in ssa.Instruction) bool { return in == ssa.Instruction(c) }
-	if s, ok := constString(arg); ok {
-		r.Check(s == "", "C19.4", construct+"|top-level-fallback", p.Pos(c.Pos()), "falls back to the top level", fmt.Sprintf("falls back to the constant path %q", s))
-		if lastIndex != nil {
-			// only when LastIndex == -1
-			w := core.Unguarded(ds, f, nil, isCall, func(cd core.Cond) int {
-				if cd.Op == "" || cd.X.Val != ssa.Value(lastIndex) {
-					return -1
-				}
-				if cd.Y.Kind != "const" || cd.Y.Name != "-1" {
-					return -1
-				}
-				for s := 0; s < 2; s++ {
-					if cd.RelOnEdge(s) == "==" {
-						return s
-					}
-				}
-				return -1
-			})
-			r.Check(w == nil, "C19.4", construct+"|top-level-only-without-dot", p.Pos(c.Pos()), "the top level is consulted only when the path has no more dots", "the top level can be consulted although the path still has parent levels", p.WitnessText(w)...)
-		}
-		return
-	}
-	sl, ok := arg.(*ssa.Slice)
-	if !ok || sl.X != ssa.Value(path) {
+	leaves := core.FeasibleLeaves(f, arg, c)
+	if len(leaves) == 0 {
 		r.Violate("C19.4", construct+"|shortened-path", p.Pos(c.Pos()), "the fallback lookup is not made with a prefix of the path: "+ds.D(arg).String())
 		return
 	}
-	lowOK := sl.Low == nil
-	if c0, ok := sl.Low.(*ssa.Const); ok && c0.Value != nil && c0.Int64() == 0 {
-		lowOK = true
+	for li, lf := range leaves {
+		lc := construct
+		if len(leaves) > 1 {
+			lc = fmt.Sprintf("%s|alt#%d", construct, li+1)
+		}
+		if s, ok := constString(lf.V); ok {
+			r.Check(s == "", "C19.4", lc+"|top-level-fallback", p.Pos(c.Pos()), "falls back to the top level", fmt.Sprintf("falls back to the constant path %q", s))
+			if lastIndex != nil {
+				// only when LastIndex == -1
+				w := core.UnguardedLeaf(ds, f, nil, lf, func(cd core.Cond) int {
+					if cd.Op == "" || cd.X.Val != ssa.Value(lastIndex) {
+						return -1
+					}
+					if cd.Y.Kind != "const" || cd.Y.Name != "-1" {
+						return -1
+					}
+					for s := 0; s < 2; s++ {
+						if cd.RelOnEdge(s) == "==" {
+							return s
+						}
+					}
+					return -1
+				})
+				r.Check(w == nil, "C19.4", lc+"|top-level-only-without-dot", p.Pos(c.Pos()), "the top level is consulted only when the path has no more dots", "the top level can be consulted although the path still has parent levels", p.WitnessText(w)...)
+			}
+			*sawTop = true
+			continue
+		}
+		sl, ok := lf.V.(*ssa.Slice)
+		if !ok || sl.X != ssa.Value(path) {
+			r.Violate("C19.4", lc+"|shortened-path", p.Pos(c.Pos()), "the fallback lookup is not made with a prefix of the path: "+ds.D(lf.V).String())
+			continue
+		}
+		lowOK := sl.Low == nil
+		if c0, ok := sl.Low.(*ssa.Const); ok && c0.Value != nil && c0.Int64() == 0 {
+			lowOK = true
+		}
+		highOK := lastIndex != nil && sl.High == ssa.Value(lastIndex)
+		r.Check(lowOK && highOK, "C19.4", lc+"|shortened-path", p.Pos(c.Pos()), "fallback with path[0:LastIndex(path, \".\")]", "the fallback path is "+ds.D(lf.V).String()+", expected path[0:i] with i = strings.LastIndex(path, \".\")")
+		*sawShort = true
 	}
-	highOK := lastIndex != nil && sl.High == ssa.Value(lastIndex)
-	r.Check(lowOK && highOK, "C19.4", construct+"|shortened-path", p.Pos(c.Pos()), "fallback with path[0:LastIndex(path, \".\")]", "the fallback path is "+ds.D(arg).String()+", expected path[0:i] with i = strings.LastIndex(path, \".\")")
 }
